@@ -233,8 +233,15 @@ func (f changeFinder) walkStruct(from, to *value) bool {
 	for i := from.Len() - 1; i >= 0; i-- {
 		ends[i] = nextPos
 		if v := from.Children[i]; v.IsNode {
-			// If the field is a Node, its range ends where the Node ends.
+			// If the field is a Node, its range ends where the Node ends -
+			// but not beyond the range of the struct it is a field of: the
+			// end of a node that an earlier change generated is computed
+			// from the length of its text and may lie in what follows,
+			// in the doc comment of the next declaration, say.
 			ends[i] = v.End()
+			if f.End.IsValid() && ends[i] > f.End {
+				ends[i] = f.End
+			}
 		}
 
 		// The field that preceds this field should use this field's start
